@@ -46,8 +46,8 @@ timeout = 3600 if quick else 6 * 3600  # watchdogs proper are CPU-time limits pe
 # ---- input rules of the random part -------------------------------------------------------------------------
 RULES = {
     "A": "new construction only for boxes whose rescaled big-tetrahedron corners (NewVoronoiBox of the rescaled box, unrepaired "
-         "constructor arithmetic) lie inside [1,2): outside, ExactGeometricTests::get_mantissa is meaningless (defect A, witnesses pinned-0/3/4)",
-    "B": "every generator is at least 1e-5 x side away from every wall (wall family: 1e-5..1e-3 instead of 1e-12..1e-9): closer, the "
+         "constructor arithmetic) lie inside [1,2): outside, ExactGeometricTests::get_mantissa is meaningless (defect A, witnesses pinned-0/4)",
+    "B": "every generator is at least 1e-5 x (largest box side) away from every wall (wall family: 1e-5..1e-3 instead of 1e-12..1e-9): closer, the "
          "mirror-generator circumcentres of the new construction lose eps*h*(h/distance) (defect B, witnesses pinned-1/6)",
     "C": "no exact bcc lattice in a box with three equal sides for the new construction (defect C, witness pinned-2)",
     "O": "old construction only if the smallest generator separation is >= c*sqrt(OLDVORONOI_TOLERANCE)*|box sides|, c = 20: the documented "
@@ -68,7 +68,7 @@ def rule_of(key, rec):
     except (ValueError, IndexError):
         return ""
     if ctor == "new":
-        return {0: "A", 1: "B", 2: "C", 3: "A", 4: "A", 6: "B"}.get(k, "")
+        return {0: "A", 1: "B", 2: "C", 4: "A", 6: "B"}.get(k, "")
     if ctor == "old":
         return {3: "D", 5: "O", 6: "O", 7: "D"}.get(k, "")
     return ""
